@@ -132,3 +132,8 @@ REG.klass("OrderMgrCtx", B + "backtesting.order_mgr.ExchangeContext",
 REG.klass("OrderManager", B + "backtesting.order_mgr.OrderManager",
           fields={"_ctx": "OrderMgrCtx", "_liquidity_strategies": "Dict[Val:Pair,LiquidityStrategy]",
                   "_orders": "OrderContainer", "_holds_by_order": "Dict[Str,ValueMap]", "_order_updates": "LazyProxy"})
+
+# --- global ghost state (exists only in contracts) --------------------------------------------------------------------
+# ledger[s] = sum over orders of (balance_updates[s] + fees[s])  -  sum over loans of paid_interest[s]
+# It is updated (ghost_exit) in the sole writers of those maps: Order.add_fill and Loan.add_paid_interest.
+REG.klass("Ghost", None, ghost={"ledger": "MMap[Str,Real]", "init": "MMap[Str,Real]"})
